@@ -222,7 +222,8 @@ def report(prop, tier, seed, mod, aggs, xres, wall, verbose=False):
         "solver_s": round(tot["solver_s"], 3),
         "unexplored_prefixes": tot["unexplored"],
         "exhaustive": bool(exhaustive and not incon_lines),
-        "programs": per_item,
+        "programs": len(per_item),
+        "program_details": per_item,
         "reachability": reach,
         "functions_executed": sorted(funcs),
         "known_findings_seen": sorted(known_lines),
